@@ -79,10 +79,12 @@ def setup(ctx):
 
     _mon.attach(gt, '_compute_site_radius', post=lambda result, args, kwargs: _auto.append(float(result)), optional=True, label='_compute_site_radius')
     _mon.attach(Jumps, 'collective', label='Jumps.collective')
-    _mon.attach(rdf, 'radial_distribution', label='rdf.radial_distribution')
-    _mon.attach(rdf, 'radial_distribution_between_species', label='rdf.radial_distribution_between_species')
-    _mon.attach(Trajectory, 'to_volume', label='Trajectory.to_volume')
-    _mon.attach(Volume, 'get_free_energy', label='Volume.get_free_energy')
+    from .. import retain as _rt
+
+    _mon.attach(rdf, 'radial_distribution', label='rdf.radial_distribution', retain=_rt.rdf_dict)
+    _mon.attach(rdf, 'radial_distribution_between_species', label='rdf.radial_distribution_between_species', retain=_rt.rdf_one)
+    _mon.attach(Trajectory, 'to_volume', label='Trajectory.to_volume', retain=_rt.volume)
+    _mon.attach(Volume, 'get_free_energy', label='Volume.get_free_energy', retain=_rt.volume)
     try:
         rdf.track = lambda it, **kw: it
     except Exception:  # noqa: BLE001
@@ -287,6 +289,18 @@ def run_unit(unit, rng, ctx):
     lengths = np.linalg.norm(sys_.matrix, axis=1)
     params = {'coll_dist': float(rng.uniform(1.0, 4.0)), 'max_dist': float(rng.uniform(2.0, 5.0)), 'res': float(rng.choice([0.25, 0.5])), 'grid_res': float(lengths.min() / rng.uniform(3.2, 6.8))}
     dims = np.array([int(L // params['grid_res']) for L in lengths])
+    # a quarter of the systems: a few diffusing-atom coordinates sit 1e-12 .. 3e-9 below a voxel edge, and the
+    # translation is chosen so that one of them ends up just below the upper cell face
+    force_shift = None
+    if unit['i'] % 4 == 1:
+        nLi_ = sys_.n_floating
+        for _ in range(3):
+            t_, a_, c_ = int(rng.integers(len(base_rep.coords))), int(rng.integers(nLi_)), int(rng.integers(3))
+            j_ = int(np.floor(base_rep.coords[t_, a_, c_] * dims[c_]))
+            base_rep.coords[t_, a_, c_] = (j_ + 1) / dims[c_] - 10.0 ** (-float(rng.uniform(8.5, 12.0)))
+            if force_shift is None:
+                force_shift = (c_, int((dims[c_] - (j_ + 1)) % dims[c_]))
+        ctx.count('systems_with_coordinates_just_below_a_voxel_edge')
     what = f'{sys_.kind}{"/rot" if sys_.rotated else ""} sites={len(sys_.site_frac)} labels={sys_.labels} radius={"dict" if isinstance(sys_.site_radius_arg, dict) else "float"} f={f}'
     wit = {'matrix': sys_.matrix, 'site_frac': sys_.site_frac, 'labels': sys_.labels, 'site_radius': sys_.site_radius_arg, 'params': params}
     nLi = sys_.n_floating
@@ -317,6 +331,8 @@ def run_unit(unit, rng, ctx):
         Q = geom.random_rotation(rng)
         reps.append(('rotation', replace(base_rep, m=sys_.matrix @ Q.T), ident_a, ident_s, (0, 0, 0), False))
         kshift = tuple(int(x) for x in rng.integers(0, dims))
+        if force_shift is not None:
+            kshift = tuple(force_shift[1] if ax == force_shift[0] else kshift[ax] for ax in range(3))
         v = np.array(kshift) / dims
         reps.append(('translation', replace(base_rep, coords=np.mod(base_rep.coords + v, 1), site_frac=np.mod(base_rep.site_frac + v, 1)), ident_a, ident_s, kshift, False))
         perm_all = np.concatenate([rng.permutation(nLi), nLi + rng.permutation(N - nLi)])
@@ -365,7 +381,7 @@ def run_unit(unit, rng, ctx):
                 # a coordinate on a voxel edge may round into either voxel after the shift
                 for cc in (base_rep.coords[:, :nLi], rep.coords[:, :nLi]):
                     x = cc * dims
-                    if np.any(np.abs(x - np.round(x)) < 1e-9):
+                    if np.any(np.abs(x - np.round(x)) < 1e-13):
                         skip_vol = True
                 ctx.count('volume_comparison_skipped_voxel_edge', skip_vol)
             compare(base, other, name, amap_, smap_, shift, ctx, what, wit, skip_rdf, site_perm, skip_vol)
